@@ -78,7 +78,9 @@ CHECKS["C20"] = dict(
     text="Decides reuse/determinism as far as this repository's code is concerned, for every history: no callback stores on "
          "the instance, class, module or any object not created by the current parse; no mutable defaults, memoisation, "
          "global/nonlocal; lists inside nodes are fresh; nothing iterates a set (hash seed); supplied lexer/parser are used "
-         "exactly when given and their truthiness is safe; the installed SLY driver still resets per-call state.",
+         "exactly when given and their truthiness is safe; the installed SLY driver still resets per-call state; the rewriter's constructor leaves a supplied "
+   "lexer/parser as it found it on every exit; the error hook reads no attribute SLY assigns only inside its loop; memoisation only of pure functions of "
+   "scalars with immutable results.",
     note="Trusted: CPython, SLY internals beyond the re-verified reset shape.", ref="5 C20")
 
 
@@ -92,33 +94,39 @@ _c("C01", "template extraction by abstract interpretation of the SQLite visitor 
    "well-formed templates, no placeholder, operands once and in order; operators spelled by SQLite tokens of the same meaning; eq/ne null "
    "rendered with IS [NOT] on either side; LIKE patterns escaped with an ESCAPE clause; function handlers match the meaning table "
    "(argument flow, index shifts, strftime codes, wildcard sides); literal values reach the visitor as written (token-action rule); no "
-   "class- or module-level cache whose key does not determine the value. Induction over tree depth lifts the triples to all nestings.",
+   "class- or module-level cache whose key does not determine the value; every Compare template keeps the node's own comparator (IS / IS NOT only "
+   "for eq / ne); the text of a string constant is rewritten by quote doubling only. Induction over tree depth lifts the triples to all nestings.",
    "Not decided: three-valued logic, collation, numeric/date function results in SQLite. Oracles: SQLite precedence table and function "
    "meanings (data in sa/props/c01.py, sa/sqltok.py). Known findings F07, F08.")
 _c("C02", "constructor-term extraction by abstract interpretation of the Django visitor + meaning-table comparison (static)",
    "Decides the structural clauses: operator -> Django construct mapping with operand order; custom NotEqual lookup; COMPARISON_FLIP "
    "involution; eq/ne null polarity and refusal for other comparators; every djangofunc_* against the meaning table; promotion to Q "
    "exactly at depth 0; shorthand annotates before filtering on the incoming queryset; substring family type-checks both operands; literal "
-   "values as written (token-action rule) and the shorthand chain parse(text) -> visit -> one filter without shared state.",
+   "values as written (token-action rule) and the shorthand chain parse(text) -> visit -> one filter without shared state (caches, mutated "
+   "mutable defaults); operand order for every operator, comparison operands unwrapped; the typing rules of C18 (typecheck / infer_type) as a precondition.",
    "Not decided: Django's SQL compilation and execution for all table contents.")
 _c("C03", "constructor-term extraction by abstract interpretation of both SQLAlchemy visitors + sibling cross-check (static)",
    "Decides the structural clauses: operator mapping and operand order; case-normalised reads of case-preserving literal text; escape "
    "discipline and type checks of contains/startswith/endswith; function handlers against the meaning table; ORM and Core resolve to the "
    "same handler for everything but field resolution, and both visit_Compare build op(left, right); null on either side of eq/ne goes "
    "through the IS form; literal values as written (token-action rule); both shorthands are parse(text) -> visit -> exactly one filter, "
-   "with no container shared between calls whose key does not determine the stored value.",
+   "with no container shared between calls whose key does not determine the stored value and no mutated mutable default; every literal gets a "
+   "parameter of its own (no fixed-name bindparam); the typing rules of C18 as a precondition.",
    "Not decided: what the compiled statements return; run-time equality of the three entry styles. Known finding F18.")
 _c("C04", "logical normalisation of the terms built by visit_CollectionLambda + installed-library signature reading + Core F shape facts (static)",
    "Decides the structural clauses: paths are left-nested and lambda owners are full paths in the parser's image; any(p)/any()/all(p) are "
    "built as exists/exists/not-exists-not on both ORMs (keyword arguments count only if the installed constructor declares them); the "
    "lambda body is made relative and translated by a sub-visitor on the related model; to-one joins are outer joins; Django path spelling; "
-   "no state shared between visitor instances (cache keys must determine the cached value).",
-   "Not decided: per-parent correlation, many-to-many semantics, run-time agreement of both ORMs.")
+   "no state shared between visitor instances (cache keys must determine the cached value); an owner built from a path of unknown depth keeps "
+   "every segment; a join is skipped only for the very relationship already joined (C15's rules); the joins a lambda body needs are applied.",
+   "Not decided: per-parent correlation, many-to-many semantics, run-time agreement of both ORMs. Known finding F32.")
 _c("C06", "regular-language inclusion / shadowing / maximal-munch on DFAs of the ordered token rules over an exact alphabet partition (static)",
    "Decides the recognition clause for all spellings: for each literal kind and identifiers, the ABNF language is included in its rule, no "
    "earlier rule matches a prefix of a well-formed token in any follow context the grammar allows, the rule matches exactly the token, the "
    "action applies exactly the documented normalisation, DURATION_PATTERN covers the lexer's duration language with groups in order and "
-   "the documented 365.25/30.44 constants. Quick uses ASCII + curated Unicode representatives, thorough all code points.",
+   "the documented 365.25/30.44 constants; no token is excluded by a look-behind where the grammar expects it; the Python value of every other "
+   "single-token literal is the standard-library / dateutil conversion of its own text (a hand-written conversion ends the run without a verdict) and "
+   "exists for every spelling the lexer accepts. Quick uses ASCII + curated Unicode representatives, thorough all code points.",
    "Not decided: numeric/calendar correctness of int/float/fromisoformat/isoparse/UUID/timedelta (library code).")
 _c("C07", "taint analysis over extracted SQL templates (quote regions, transform chains, token alphabets) for the three dialects (static)",
    "Decides the property modulo SQL lexical facts: every string value sits in exactly one '...' region with quote doubling last, every "
@@ -128,20 +136,22 @@ _c("C07", "taint analysis over extracted SQL templates (quote regions, transform
 _c("C08", "taint analysis over the constructor terms of the Django/SQLAlchemy visitors (binding constructors vs text sinks) (static)",
    "Decides the property modulo 'Value/literal/bindparam/GEOSGeometry/Q(**{k: v}) bind': every read of a literal's value in any handler's "
    "returned term sits directly in a binding constructor and never under a text sink or string formatting; the annotation-name helper "
-   "stays unreachable with value-bearing expressions on the installed Django.",
+   "stays unreachable with value-bearing expressions on the installed Django; no literal_execute / fixed-name parameters; the package's own lookup keeps "
+   "every operand's parameters; function handlers do not take a translated operand's `.value` apart.",
    "Trusted: the binding behaviour of the listed constructors; unknown constructors give exit 2, never a verdict.")
 _c("C09", "template extraction by abstract interpretation of the three SQL visitors + well-formedness/precedence/once-in-place rules (static)",
    "Decides, per dialect and table-alias configuration: templates are well-formed (balanced, operands present, CASE skeleton, non-empty, raw "
    "values are SQL tokens for every accepted spelling); no hole resolves to a missing handler; grouping preserved for every admissible triple "
    "under SQL-92 and Trino (standard), Trino (Athena), SQLite; every operand/argument exactly once, operands in source order; alias only "
-   "qualifies identifiers.",
+   "qualifies identifiers; Compare templates keep the node's comparator; string constants are rewritten by quote doubling only.",
    "Not decided: acceptance by a real Presto/SQL-92 parser. Known findings F07, F09.")
 _c("C12", "exhaustiveness over dispatch-reachable kinds + outcome analysis of every handler path of the seven visitors (static)",
    "Decides: every (visitor, kind) reachable through self.visit from a filter's root has a handler or a refusing generic_visit; handlers name "
    "real kinds and reachable functions; function dispatch uses the full dotted name; arities fit signatures; every reachable raise is a "
    "library exception (or the documented NotImplementedError of Core); attribute reads are defined on every kind that reaches them for "
    "well-typed arguments (OData 4.01 collection overloads included); SQLAlchemy field lookups are guarded so unknown names become "
-   "InvalidFieldException; no AST node or node list sits in a result as itself; no shared cache with an under-determined key.",
+   "InvalidFieldException; no AST node or node list sits in a result as itself; no shared cache with an under-determined key; names written in "
+   "the filter are not used as Python keyword names unchecked; the typing rules of C18 as a precondition.",
    "Not decided: exceptions raised inside Django/SQLAlchemy at compile time. Known findings F27, F28.")
 _c("C13", "printer templates vs the parser's LALR decision relation, lexer-action inverses and token languages (static)",
    "Decides the property for the parser's image: parentheses wherever the automaton would regroup, for every (parent operator, slot, child "
@@ -152,12 +162,13 @@ _c("C15", "builder-chain analysis of the shorthands by abstract interpretation +
    "Decides: results are built from the incoming query by additive builders only, ending in exactly one filter of the translated clause; "
    "collected joins are applied (outer) before the filter or skipped only if present; Django annotations applied before filter; every "
    "GenericFunction subclass declares its own package (registration rule re-read from the installed SQLAlchemy); no module-level write into "
-   "SQLAlchemy's namespace.",
+   "SQLAlchemy's namespace, no compile hook or event listener on SQLAlchemy's own classes; no mutated mutable default in the back-end packages.",
    "Not decided: row-level equality with the base query, SQLAlchemy's join de-duplication, legacy Query internals.")
 _c("C19", "DFA closure checks on token rules + grammar position checks + case-sensitivity analysis of every consumer of case-variant text (static)",
    "Decides: whitespace-bearing token languages are closed under replacing whitespace runs; the lexer is case-insensitive throughout; "
    "optional whitespace is allowed at every advertised position; every consumer of text that keeps the user's case (Boolean, DateTime T/Z, "
-   "Float exponent) in ast.py and in all back ends is case-insensitive.",
+   "Float exponent) in ast.py and in all back ends is case-insensitive (the conversion a py_val hands the text to is read off the evaluated term); no "
+   "token depends on whether a blank stands before it (look-behind).",
    "Trusted: dateutil treats t/z like T/Z; float() and SQL numeric literals accept e/E.")
 
 NOT_YET = {}
